@@ -45,7 +45,7 @@ import (
 func init() {
 	hx.Register(&hx.Prop{
 		ID: "C15",
-		Rule: "corpus (witness of F-C15-1, shapes of past seeded defects); exhaustive: all 21 unordered pairs of the 6 operation kinds " +
+		Rule: "corpus (inputs of the repaired findings F-C15-1 and F-C15-2, shapes of past seeded defects); exhaustive: all 21 unordered pairs of the 6 operation kinds " +
 			"(gorillamux FindRoute, legacy FindRoute, ValidateRequest, ValidateResponse, VisitJSON, NewSchemaRefForValue) × {fresh process (first use raced), warm process} " +
 			"on a document with patterns, uniqueItems arrays, scalar defaults, allOf/oneOf, multipart and urlencoded bodies with additionalProperties schemas; " +
 			"then a seeded random stream of documents (1-3 operations, random schemas of depth ≤ 3, per-case unique patterns so that pattern compilation is raced even in a warm process) " +
@@ -64,7 +64,7 @@ func init() {
 			"only detector reports with a frame in github.com/getkin/kin-openapi count (DESIGN §8.1)",
 			"registration APIs (RegisterBodyDecoder, RegisterArrayUniqueItemsChecker, DefineStringFormat…) are not among the concurrent calls",
 			"one openapi3gen.Generator is not shared between goroutines (NewSchemaRefForValue creates one per call); the schemas output map is per call",
-			"verdict = error text (multi-errors sorted) plus the request body / query after validation; calls whose verdict is not reproducible when run alone twice are not compared",
+			"verdict = error text (multi-errors sorted) plus the request body / query after validation; a concurrent verdict counts as divergent only if it differs from the solo verdict AND never occurs among 40 further solo runs (calls that are not reproducible alone — Go map order inside the library — are counted, not compared)",
 		},
 	})
 }
@@ -324,9 +324,46 @@ type c15T6 map[string]*c15T2
 type c15T7 []c15T4
 
 // which of the values below have a self-referential type (the class of finding F-C15-2)
-var c15Recursive = map[int]bool{3: true, 11: true}
+var c15Recursive = map[int]bool{3: true, 11: true, 12: true, 13: true, 14: true, 15: true, 16: true, 17: true, 18: true, 19: true}
 
-var c15GenValues = []any{c15T0{}, &c15T1{}, c15T2{}, &c15T3{}, c15T4{}, c15T5{}, c15T6{}, c15T7{}, 3, "s", []int{1}, map[string]c15T3{}}
+// more self-referential types: a type descriptor is built once per process, so every distinct type is one more
+// first use that goroutines of a fresh process can race on
+type c15R0 struct {
+	Next *c15R0 `json:"next"`
+	A    int    `json:"a"`
+}
+type c15R1 struct {
+	Kids []c15R1 `json:"kids"`
+	B    string  `json:"b"`
+}
+type c15R2 struct {
+	M map[string]*c15R2 `json:"m"`
+	C bool              `json:"c"`
+}
+type c15R3 struct {
+	Other *c15R4 `json:"other"`
+	D     int    `json:"d"`
+}
+type c15R4 struct {
+	Back *c15R3 `json:"back"`
+	E    string `json:"e"`
+}
+type c15R5 struct {
+	L, R *c15R5
+	V    float64
+}
+type c15R6 struct {
+	Inner struct {
+		Up *c15R6 `json:"up"`
+	} `json:"inner"`
+}
+type c15R7 struct {
+	Self **c15R7 `json:"self"`
+	T    c15T0   `json:"t"`
+}
+
+var c15GenValues = []any{c15T0{}, &c15T1{}, c15T2{}, &c15T3{}, c15T4{}, c15T5{}, c15T6{}, c15T7{}, 3, "s", []int{1}, map[string]c15T3{},
+	&c15R0{}, c15R1{}, &c15R2{}, c15R3{}, &c15R4{}, &c15R5{}, c15R6{}, &c15R7{}}
 
 // ---------------------------------------------------------------- executing one call
 
@@ -623,12 +660,34 @@ func runC15Child(c hx.Case) any {
 	}
 	var divs []string
 	unstable := 0
+	// A call whose verdict is not reproducible when run ALONE (Go map iteration inside the library, e.g. the
+	// generator's component export for mutually recursive types) says nothing about schedules: a concurrent
+	// verdict that differs from the reference is re-checked against many more solo runs and is a divergence only
+	// if no solo run ever produces it.
+	soloSeen := map[int]map[string]bool{}
+	seenAlone := func(ci int, res string) bool {
+		if soloSeen[ci] == nil {
+			soloSeen[ci] = map[string]bool{}
+			for n := 0; n < 40; n++ {
+				w, err := c15Load(data)
+				if err != nil {
+					break
+				}
+				soloSeen[ci][c15Exec(w, docSpec, calls[ci].(map[string]any))] = true
+			}
+		}
+		return soloSeen[ci][res]
+	}
 	for _, o := range all {
 		if !stable[o.call] {
 			unstable++
 			continue
 		}
 		if o.res != ref[o.call] {
+			if seenAlone(o.call, o.res) {
+				unstable++
+				continue
+			}
 			if len(divs) < 3 {
 				divs = append(divs, fmt.Sprintf("call %d: concurrent %q, alone %q", o.call, clip(o.res, 300), clip(ref[o.call], 300)))
 			} else {
@@ -752,12 +811,6 @@ func cmpC15(c hx.Case, impl any, reply map[string]any) hx.Verdict {
 	}
 	// the detector is sound, not complete: a race it reports must be in the model; a race of the model may go unreported
 	imOK := (!iRace || jbool(model, "race")) && iDiv == jbool(model, "diverge") && iDoc == jbool(model, "docChanged")
-	if len(jlist(reply["excl"])) > 0 {
-		// inside a known-finding class what shows depends on the schedule (and on whether the detector sees it): the
-		// model gives the upper bound `may`; the defect is "present as recorded" when the observation stays within it
-		may, _ := reply["may"].(map[string]any)
-		imOK = (!iRace || jbool(may, "race")) && (!iDiv || jbool(may, "diverge")) && (!iDoc || jbool(may, "docChanged"))
-	}
 	isOK := iRace == jbool(spec, "race") && iDiv == jbool(spec, "diverge") && iDoc == jbool(spec, "docChanged")
 	return hx.Verdict{IM: imOK, IS: isOK, Detail: strings.TrimSpace(detail)}
 }
@@ -768,7 +821,7 @@ type c15Gen struct {
 	r   *hx.Rng
 	tag string // makes the patterns of this case unique in the process (cold compile even when warm)
 	n   int
-	sharedDefaults bool // may produce the schema shape of finding F-C15-1
+	sharedDefaults bool // may produce the schema shape of the repaired finding F-C15-1 (object default receiving nested defaults)
 }
 
 func (g *c15Gen) pattern() string {
@@ -1239,6 +1292,24 @@ func genC15(ctx *hx.Ctx, emit func(hx.Case)) {
 			calls = append(calls, c15SinkCall(k, i), c15SinkCall(k, i+1))
 		}
 		emit(hx.Case{"doc": c15SinkDoc("all"), "calls": calls, "g": 32, "per": 3, "rounds": 2, "cold": cold, "sched": 99})
+	}
+	// first use of the type-info cache for self-referential types (the input class of the repaired F-C15-2: what
+	// showed was schedule-dependent, so it gets many fresh processes, each with eight first uses raced by
+	// goroutines running in step)
+	nRec := 24
+	if ctx.Thorough() {
+		nRec = 200
+	}
+	for i := 0; i < nRec; i++ {
+		var calls []any
+		for t := 12; t < 20; t++ {
+			c := map[string]any{"k": "gen", "type": t, "rec": true, "opts": []any{}}
+			if (i+t)%3 == 0 {
+				c["opts"] = []any{"allExported"}
+			}
+			calls = append(calls, c)
+		}
+		emit(hx.Case{"doc": c15SinkDoc("rec"), "calls": calls, "g": 16 + 8*(i%3), "per": 8, "rounds": 1, "cold": true, "sched": 1000 + i})
 	}
 	// single goroutine: the sequential behaviour of the same machinery (trivial cases)
 	emit(hx.Case{"doc": c15SinkDoc("one"), "calls": []any{c15SinkCall("vreq", 0), c15SinkCall("visit", 1)}, "g": 1, "per": 2, "rounds": 1, "cold": false, "sched": 1})
